@@ -37,6 +37,11 @@ type Case struct {
 	Reason   string   `json:"reason,omitempty"`  // for OUT
 	ExpOut   string   `json:"specOut,omitempty"`
 	Features []string `json:"features,omitempty"`
+	// FloatData, when set, is the data of the call (floats of any magnitude,
+	// which the tagged dyadic encoding cannot carry); Direct describes the
+	// printed value by class: the line is judged Go against JS only.
+	FloatData map[string]float64 `json:"floatData,omitempty"`
+	Direct    *FloatClass        `json:"direct,omitempty"`
 	// NoData: the entry template is called without any argument (JS) / with a
 	// nil data map (Go)
 	NoData bool `json:"noData,omitempty"`
@@ -50,6 +55,14 @@ type Case struct {
 	FixedFiles []core.File `json:"-"`
 	// harness trouble (generator produced something the compiler rejects)
 	Skip string `json:"skip,omitempty"`
+}
+
+// FloatClass is what the specification gets to know about a float that is
+// outside its dyadic model.
+type FloatClass struct {
+	Finite  bool   `json:"finite"`
+	NegZero bool   `json:"negzero"`
+	Use     string `json:"use"`
 }
 
 // Src returns the Soy source of all files.
@@ -194,6 +207,16 @@ func (r *Runner) Exec(c *Case) {
 		ij = core.ToDataMap(c.Prog.IJ["v"])
 	}
 	godata := core.ToDataMap(c.Prog.Data)
+	var jsdata interface{} = plainMap(c.Prog.Data)
+	if c.FloatData != nil {
+		godata = data.Map{}
+		jm := map[string]interface{}{}
+		for k, x := range c.FloatData {
+			godata[k] = data.Float(x)
+			jm[k] = x
+		}
+		jsdata = jm
+	}
 	if c.NoData {
 		godata = nil
 	}
@@ -233,7 +256,7 @@ func (r *Runner) Exec(c *Case) {
 		pre = append(pre, pluralJS[cat.rule])
 	}
 	resp, rerr := r.Pool.Run(jsrun.Request{Pre: pre, Sources: srcs,
-		Calls: []jsrun.Call{{Fn: c.Prog.Entry, Data: plainMap(c.Prog.Data), IJ: ijd, NoData: c.NoData}}, Timeout: 5 * time.Second})
+		Calls: []jsrun.Call{{Fn: c.Prog.Entry, Data: jsdata, IJ: ijd, NoData: c.NoData}}, Timeout: 5 * time.Second})
 	if rerr != nil {
 		c.Skip = "node: " + rerr.Error()
 		return
